@@ -87,7 +87,7 @@ Print Assumptions resolution_idempotent.
 
 (** * T-res for let / set / read-only operators nested to any depth (proofs/ResolveLet.v)
     [fragE V e]: e is built from literals, variables of V, the read-only operators (arithmetic, comparison, logic,
-    bitwise, slice, if, do), (set (x e) ...) and (let ([x init] ...) body ...) with read-only initialisers, nested
+    bitwise, slice, if, do), while, print, (set (x e) ...) and (let ([x init] ...) body ...) with read-only initialisers, nested
     arbitrarily.  [Inv V [start] st]: the global frame binds exactly the names of [start], no virtual signals, and no
     name of V is an alias or a signal (the quantifier of the property).  For every such program the resolved program
     and the program as written evaluate to the SAME outcome -- value or error, and final state -- for every fuel:
@@ -134,7 +134,8 @@ Theorem the_let_fragment_is : forall V e, ResolveLet.fragE V e =
       forallb (ResolveLet.fragE V) body
   | VList true (VOp OSet :: bs) =>
       forallb (fun b => match b with VList true [VSym kn None; e] => smem kn V && ResolveLet.fragE V e | _ => false end) bs
-  | VList true (VOp o :: args) => ReadOnly.ro_op o && forallb (ResolveLet.fragE V) args
+  | VList true (VOp o :: args) =>
+      (ReadOnly.ro_op o || match o with OWhile | OPrint => true | _ => false end) && forallb (ResolveLet.fragE V) args
   | _ => false
   end.
 Proof. intros V e. destruct e as [| | | | |n s| |w l| | | | |]; try reflexivity. Qed.
@@ -151,4 +152,13 @@ Example a_nested_program : ResolveLet.fragE ResolveLet.demo_V ResolveLet.demo_pr
 Proof.
   split; [exact ResolveLet.demo_in_fragment|]. split; [exact ResolveLet.demo_inv|]. split; [exact ResolveLet.demo_resolved|].
   split; [exact ResolveLet.demo_agrees|exact ResolveLet.demo_value].
+Qed.
+
+(** and by a loop:  (let ([i 0]) (while (< i 3) (set (i (+ i 1))) (set (g (+ g i)))) (print g) g) *)
+Example a_loop_program : ResolveLet.fragE ResolveLet.demo_V ResolveLet.loop_prog = true /\
+  (forall e' lf f, resolve ["g"] ResolveLet.loop_prog = RsOk e' ->
+     eval lf f e' ResolveLet.demo_state = eval lf f ResolveLet.loop_prog ResolveLet.demo_state) /\
+  exists st', eval 20 20 ResolveLet.loop_prog ResolveLet.demo_state = Ok (VInt 11) st' /\ output_of st' = String "1" (String "1" (String (Ascii.ascii_of_nat 10) "")).
+Proof.
+  split; [reflexivity|]. split; [exact ResolveLet.loop_agrees|]. eexists. vm_compute. split; reflexivity.
 Qed.
